@@ -46,6 +46,10 @@ func fillsFromPrinted(pn *model.PNode, out map[string]interface{}) {
 				}
 				min, _ = strconv.Atoi(strings.TrimSpace(txt))
 			}
+			if min > 100000 {
+				out["\x00uncompletable"] = true // no string can be that long: the message can never be completed
+				return
+			}
 			out[pn.AVar] = strings.Repeat("k", min)
 		}
 	default:
@@ -90,6 +94,9 @@ func completeFromPrinted(m *ast.DataMessage) (*ast.DataMessage, error) {
 		}
 		fill := map[string]interface{}{}
 		fillsFromPrinted(pn, fill)
+		if _, never := fill["\x00uncompletable"]; never {
+			return nil, nil
+		}
 		if len(fill) > 0 {
 			m = m.FillVariables(fill)
 		}
@@ -126,6 +133,12 @@ func printParseFixedPoint(m *ast.DataMessage) error {
 	c2, err := completeFromPrinted(back)
 	if err != nil {
 		return err
+	}
+	if c1 == nil || c2 == nil {
+		if (c1 == nil) != (c2 == nil) {
+			return fmt.Errorf("only one of the two messages can be completed\nprinted:\n%s", clipStr(printed, 400))
+		}
+		return nil
 	}
 	b1, b2 := c1.ToBytes(), c2.ToBytes()
 	if len(b1) == 0 || !bytes.Equal(b1, b2) {
